@@ -403,11 +403,39 @@ def jsn(job):
     return {"id": job["id"], "events": events}
 
 
+def notrace(job):
+    """Failed alternatives and the indent stack (WithIndent / HangingString): run the grammar with a
+    WithIndent(f) alternative in front of a HangingString, and the same grammar without it, on the
+    same input; both observations are recorded, specs/PegTrace.tla compares them when f fails."""
+    from insights.parsr import HangingString, WithIndent
+    hchars = set("abcdefghijklmnopqrstuvwxyz !x")
+    events = []
+    for c in job["cases"]:
+        P = lambda: Literal("".join(c["p"]))
+        H = lambda: HangingString(hchars)
+        f = WithIndent(build(c["f"], "classes"))
+        if c["form"] == "choice":
+            x = Choice([f, H()])
+        elif c["form"] == "opt":
+            x = KeepRight(Opt(f), H())
+        else:
+            x = KeepRight(Many(f), H())
+        outer = WithIndent(KeepRight(P(), x))
+        base = WithIndent(KeepRight(P(), H()))
+        ro, _ = run_term(outer, c["w"])
+        rb, _ = run_term(base, c["w"])
+        STATS["notrace"] = STATS.get("notrace", 0) + 1
+        if rb["ok"] and rb["v"] != ["$"]:
+            STATS["notrace_base_reads_text"] = STATS.get("notrace_base_reads_text", 0) + 1
+        events.append({"ev": "notrace", "form": c["form"], "p": c["p"], "f": c["f"], "w": c["w"], "outer": ro, "base": rb})
+    return {"id": job["id"], "ws": [], "events": events}
+
+
 def main():
     signal.signal(signal.SIGVTALRM, _alarm)
     with open(sys.argv[1]) as f:
         payload = json.load(f)
-    traces = [{"peg": peg, "tag": tag, "json": jsn}[job["kind"]](job) for job in payload["jobs"]]
+    traces = [{"peg": peg, "tag": tag, "json": jsn, "notrace": notrace}[job["kind"]](job) for job in payload["jobs"]]
     with open(sys.argv[2], "w") as f:
         json.dump({"traces": traces, "stats": STATS}, f, separators=(",", ":"))
 
